@@ -249,6 +249,15 @@ vp_arr_status(const void *p) {
   return c->arr->status;
 }
 
+/* restriction target for the cleanup call sites of ldb_iter_clear
+   (iter->cleanup_head.func / node->func): no harness registers a cleanup */
+void
+vp_arr_noop_cleanup(void *arg1, void *arg2) {
+  (void)arg1;
+  (void)arg2;
+  VP_ASSERT(0, "a cleanup function ran although none was registered");
+}
+
 const ldb_itertbl_t vp_arr_table = {
   /* .clear = */ vp_arr_clear,
   /* .valid = */ vp_arr_valid,
